@@ -48,6 +48,37 @@ def validAsset (s : String) : Bool :=
       1 ≤ u.1.length && u.1.length ≤ 16 && validAssetTail u.2
     | rest => validAssetTail rest
 
+/-! `ParsePortionSpecific`, fraction form: `new(big.Rat).SetString(num + "/" + den)`
+    reads numerator and denominator with base 0, so a part with a leading `0` and more
+    digits is OCTAL ("010/100" = 8/64; "007/008" is rejected: 8 is not an octal digit).
+    `Allotment.lean`'s `parsePortionSpecific` reads both parts in base 10; this wrapper
+    corrects the fraction form and is what the machine models use.  (Found by the
+    `vars` differential of the API area.) -/
+
+def octalVal (ds : List Char) : Nat := ds.foldl (fun acc c => acc * 8 + (c.toNat - '0'.toNat)) 0
+
+/-- Base-0 reading of a non-empty digit string: octal with a leading `0`, else decimal. -/
+def base0Val? (ds : List Char) : Option Nat :=
+  match ds with
+  | '0' :: rest =>
+    if rest.isEmpty then some 0
+    else if rest.all (fun c => '0' ≤ c && c ≤ '7') then some (octalVal rest) else none
+  | _ => some (digitsVal ds)
+
+/-- `ParsePortionSpecific` as the Go code behaves. -/
+def parsePortionGo (input : String) : Except String Portion :=
+  match matchPercent input.toList with
+  | some _ => parsePortionSpecific input
+  | none =>
+    match matchFraction input.toList with
+    | some (n, d) =>
+      match base0Val? n, base0Val? d with
+      | some nv, some dv =>
+        if dv = 0 then .error "invalid fractional format"
+        else newPortionSpecific ((nv : Int) / (dv : Int))
+      | _, _ => .error "invalid fractional format"
+    | none => .error "invalid format"
+
 /-- `assets.Pattern`, as printed in `ValidateAsset`'s error. -/
 def assetPatternText : String := "[A-Z][A-Z0-9]{0,16}(_[A-Z]{1,16})?(\\/\\d{1,6})?"
 
